@@ -635,3 +635,57 @@ def fold_bounds(conjuncts):
         k = _c(t.sort, v)
         out.append(lt(t, k) if strict else le(t, k))
     return out + rest
+
+
+# ------------------------------------------------------------ (de)serialise
+def dump_terms(terms):
+    """Serialise a list of terms (shared DAG) to plain picklable data."""
+    index = {}
+    nodes = []
+
+    def go(t):
+        stack = [t]
+        while stack:
+            x = stack[-1]
+            if id(x) in index:
+                stack.pop()
+                continue
+            pend = [a for a in x.args if isinstance(a, T) and id(a) not in index]
+            if pend:
+                stack.extend(pend)
+                continue
+            if x.op == 'const':
+                v = x.val
+                if x.sort == 'R':
+                    v = (v.numerator, v.denominator)
+                nodes.append(('c', x.sort, v))
+            elif x.op == 'var':
+                nodes.append(('v', x.sort, x.val))
+            else:
+                nodes.append((x.op, x.sort, tuple(index[id(a)] for a in x.args)))
+            index[id(x)] = len(nodes) - 1
+            stack.pop()
+    roots = []
+    for t in terms:
+        go(t)
+        roots.append(index[id(t)])
+    return nodes, roots
+
+
+def load_terms(data):
+    nodes, roots = data
+    built = []
+    for n in nodes:
+        if n[0] == 'c':
+            s, v = n[1], n[2]
+            built.append(B(v) if s == 'B' else I(v) if s == 'I' else R(Fraction(v[0], v[1])))
+        elif n[0] == 'v':
+            built.append(var(n[2], n[1]))
+        else:
+            op, sort, args = n
+            a = [built[i] for i in args]
+            if op.startswith('uf:'):
+                built.append(uf(op[3:], a, sort))
+            else:
+                built.append(_mk(op, tuple(a), sort))
+    return [built[i] for i in roots]
